@@ -880,7 +880,7 @@ class XonshParser(Parser):
         mark = self._mark()
         _lnum, _col = self._tokenizer.peek().start
         if (a := self.name()) and (b := self.star_annotation()):
-            return ast.arg(arg=a.string, annotations=b, **self.span(_lnum, _col))
+            return ast.arg(arg=a.string, annotation=b, **self.span(_lnum, _col))
         self._reset(mark)
         return None
 
